@@ -12,6 +12,9 @@ open Cal
 /-- linear day number of the cursor (also meaningful while `day` overflows its month) -/
 def curOrd (c : Cursor) : Int := toOrdinal c.year c.month c.day
 
+theorem curOrd_day (c : Cursor) (d : Int) : curOrd { c with day := d } = curOrd c + (d - c.day) := by
+  unfold curOrd toOrdinal; dsimp only; omega
+
 /-- the `while day > daysinmonth` loop keeps the linear day number and ends on a valid date -/
 theorem rollDays_spec : ∀ (n : Nat) (y m d y' m' d' : Int),
     1 ≤ m → m ≤ 12 → 1 ≤ d → d ≤ n → rollDays n y m d = some (y', m', d') →
